@@ -54,6 +54,8 @@ fn guard_of(cond: &str, negated: bool) -> Vec<&'static str> {
                 "opts.dry_run" => out.push("dryRun"),
                 "opts.reset" => out.push("optReset"),
                 "opts.backup" => out.push("optBackup"),
+                "opts.mode==Mode::Filter" | "opts.mode==crate::opts::Mode::Filter" => out.push("modeFilter"),
+                "opts.mode==Mode::Analyze" | "opts.mode==crate::opts::Mode::Analyze" => out.push("modeAnalyze"),
                 "opts.sensitive" => out.push("optSensitive"),
                 "!opts.sensitive" => out.push("notSensitive"),
                 "opts.write_report" | "opts.write_report||opts.write_report_json" => out.push("optWriteReport"),
@@ -79,6 +81,9 @@ struct GitSite {
     args: Vec<Option<String>>, // Some(literal) / None = dynamic
     stdin_piped: bool,
     stdout_piped: bool,
+    stderr: &'static str,   // dflt (inherited) | quiet (null/inherit, possibly chosen by an `if`) | piped | dyn (anything else)
+    via_output: bool,       // run with `.output()`, which drains stdout and stderr
+    wrapper: Option<String>, // a call of a generic runner: stderr handling is that of the runner's own command
     guards: Vec<&'static str>,
     seq: usize,
     uses_thread: bool,
@@ -178,6 +183,12 @@ impl V {
                 let piped = m.args.first().map_or(false, |a| a.to_token_stream().to_string().replace(' ', "").ends_with("Stdio::piped()"));
                 if name == "stdin" { site.stdin_piped = piped } else { site.stdout_piped = piped }
             }
+            "stderr" => {
+                let t = m.args.first().map_or(String::new(), |a| a.to_token_stream().to_string().replace(' ', ""));
+                let rest = t.replace("Stdio::null()", "").replace("Stdio::inherit()", "");
+                site.stderr = if t.contains("Stdio::piped") { "piped" } else if rest.contains('(') || t.is_empty() { "dyn" } else { "quiet" };
+            }
+            "output" => { site.via_output = true; }
             _ => {}
         }
     }
@@ -186,7 +197,7 @@ impl V {
         if is_command_new_git(base) {
             let line = match base { Expr::Call(c) => c.paren_token.span.open().start().line, _ => 0 };
             let mut site = GitSite { file: self.file.clone(), func: self.func.clone(), line, var: bind, args: vec![], stdin_piped: false,
-                stdout_piped: false, guards: self.guards.clone(), seq: self.seq, uses_thread: self.fn_uses_thread };
+                stdout_piped: false, stderr: "dflt", via_output: false, wrapper: None, guards: self.guards.clone(), seq: self.seq, uses_thread: self.fn_uses_thread };
             self.seq += 1;
             for (m, name) in &calls { V::apply_builder_call(&mut site, m, name); }
             // `.output()` pipes stdout (and stderr) and drains them concurrently: not a hand-rolled protocol
@@ -382,7 +393,8 @@ impl<'ast> Visit<'ast> for V {
     }
     fn visit_arm(&mut self, a: &'ast syn::Arm) {
         let p = a.pat.to_token_stream().to_string().replace(' ', "");
-        let g: Option<&'static str> = if p.ends_with("CleanupMode::Standard") { Some("cleanupStandard") } else if p.ends_with("CleanupMode::Aggressive") { Some("cleanupAggressive") } else { None };
+        let g: Option<&'static str> = if p.ends_with("CleanupMode::Standard") { Some("cleanupStandard") } else if p.ends_with("CleanupMode::Aggressive") { Some("cleanupAggressive") }
+            else if p.ends_with("Mode::Filter") { Some("modeFilter") } else if p.ends_with("Mode::Analyze") { Some("modeAnalyze") } else { None };
         if let Some(g) = g { self.guards.push(g); }
         syn::visit::visit_arm(self, a);
         if g.is_some() { self.guards.pop(); }
@@ -390,22 +402,22 @@ impl<'ast> Visit<'ast> for V {
     fn visit_expr(&mut self, e: &'ast Expr) {
         if let Expr::If(i) = e { self.visit_expr_if(i); return; }
         // calls of the generic git runners with a literal argument array are command sites
-        let wrapper_args: Option<(usize, &syn::punctuated::Punctuated<Expr, syn::token::Comma>, bool)> = match e {
+        let wrapper_args: Option<(usize, &syn::punctuated::Punctuated<Expr, syn::token::Comma>, bool, String)> = match e {
             Expr::Call(c) => {
                 let f = c.func.to_token_stream().to_string().replace(' ', "");
                 let last = f.rsplit("::").next().unwrap_or("").to_string();
-                if WRAPPERS.contains(&last.as_str()) { Some((c.paren_token.span.open().start().line, &c.args, last == "run_git_capture_stream")) } else { None }
+                if WRAPPERS.contains(&last.as_str()) { Some((c.paren_token.span.open().start().line, &c.args, last == "run_git_capture_stream", last.clone())) } else { None }
             }
-            Expr::MethodCall(m) if WRAPPERS.contains(&m.method.to_string().as_str()) => Some((m.method.span().start().line, &m.args, false)),
+            Expr::MethodCall(m) if WRAPPERS.contains(&m.method.to_string().as_str()) => Some((m.method.span().start().line, &m.args, false, m.method.to_string())),
             _ => None,
         };
-        if let Some((line, args, streamed)) = wrapper_args {
+        if let Some((line, args, streamed, wname)) = wrapper_args {
             for a in args.iter() {
                 let inner = match a { Expr::Reference(r) => &*r.expr, x => x };
                 if let Expr::Array(arr) = inner {
                     let lits: Vec<Option<String>> = arr.elems.iter().map(lit_str).collect();
                     let site = GitSite { file: self.file.clone(), func: self.func.clone(), line, var: None, args: lits, stdin_piped: false,
-                        stdout_piped: streamed, guards: self.guards.clone(), seq: self.seq, uses_thread: self.fn_uses_thread };
+                        stdout_piped: streamed, stderr: "dflt", via_output: false, wrapper: Some(wname.clone()), guards: self.guards.clone(), seq: self.seq, uses_thread: self.fn_uses_thread };
                     self.seq += 1;
                     self.sites.push(site);
                     let idx = self.sites.len() - 1;
@@ -504,6 +516,17 @@ fn main() {
     // pass 2: the real extraction, with calls of those runners as command sites
     pass(&mut v, &files);
     let _ = v.cleanup_arm;
+    // a call of a generic runner inherits the stderr handling of the runner's own command
+    let defs: Vec<(String, &'static str, bool)> = v.sites.iter().filter(|s| s.wrapper.is_none() && !s.args.iter().any(|a| a.as_ref().map_or(false, |l| sub_ctor(l).is_some())))
+        .map(|s| (s.func.clone(), s.stderr, s.via_output)).collect();
+    for s in v.sites.iter_mut() {
+        if let Some(w) = &s.wrapper {
+            match defs.iter().find(|d| &d.0 == w) {
+                Some(d) => { s.stderr = d.1; s.via_output = d.2; }
+                None => { s.stderr = "wrapped"; }   // the runner hands the command on to another function (audited by hand)
+            }
+        }
+    }
     // render
     let g = |gs: &Vec<&'static str>| format!("[{}]", gs.iter().map(|x| format!(".{x}")).collect::<Vec<_>>().join(", "));
     let render_site = |s: &GitSite| -> String {
@@ -521,8 +544,8 @@ fn main() {
             }
         }
         let sub = sub.unwrap_or_else(|| { eprintln!("extract: git command without a literal subcommand at {}.rs:{} ({})", s.file, s.line, s.func); std::process::exit(3) });
-        format!("{{ file := .{}, line := {}, sub := .{}, tags := [{}], stdinPiped := {}, stdoutPiped := {}, usesThread := {}, guards := {} }}",
-            file_ctor(&s.file), s.line, sub, tags.iter().map(|t| format!(".{t}")).collect::<Vec<_>>().join(", "), s.stdin_piped, s.stdout_piped, s.uses_thread, g(&s.guards))
+        format!("{{ file := .{}, line := {}, sub := .{}, tags := [{}], stdinPiped := {}, stdoutPiped := {}, stderr := .{}, viaOutput := {}, usesThread := {}, guards := {} }}",
+            file_ctor(&s.file), s.line, sub, tags.iter().map(|t| format!(".{t}")).collect::<Vec<_>>().join(", "), s.stdin_piped, s.stdout_piped, s.stderr, s.via_output, s.uses_thread, g(&s.guards))
     };
     // the generic runners themselves have no literal subcommand: their call sites were collected instead
     let is_wrapper_def = |s: &GitSite| WRAPPERS.contains(&s.func.as_str()) && !s.args.iter().any(|a| a.as_ref().map_or(false, |l| sub_ctor(l).is_some()));
